@@ -187,7 +187,7 @@ def _pipeline_info(pipe, data, context, former_data=None):
             if isinstance(data, (OrderedDict, dict)) and len(data) > 1:
                 info["outputs"] = [_get_name(context, data=k, info=info) for k in data]
             else:
-                info["outputs"] = _get_name(context, data=data, info=info)
+                info["outputs"] = [_get_name(context, data=data, info=info)]
             info = [info]
         else:
             raise NotImplementedError(
